@@ -328,6 +328,8 @@ class World:
             ids = []
             _container_ids(c, ids)
             self.ctx_ids.append(ids)
+        # matches handed out earlier stay what they were: (match object, what it looked like, who produced it)
+        self.retained: List[Tuple[Any, Any, str]] = []
         self.has_cacheable = [self._cacheable(self.pristine[qi]) for qi in range(len(self.texts))]
         self.uses_regex_fn = [("match(" in t or "search(" in t) for t in self.texts]
 
@@ -415,6 +417,8 @@ class World:
             _container_ids(c, ids)
             if ids != self.ctx_ids[i]:
                 raise Violation("C09.ctx", f"after {after}: a node of filter context {i} was replaced by another object", "C09.ctx:identity-changed")
+        if full:
+            self.check_retained(after)
         for key, c in self.compiled.items():
             if not full and key != touched:
                 continue
@@ -436,6 +440,21 @@ class World:
                     "C09.query",
                     f"after {after}: the selectors of the compiled query for {self.texts[key[1]]!r} (env {key[0]}) were replaced",
                     "C09.query:selectors-replaced",
+                )
+
+    def retain(self, m: Any, got: Any, desc: str) -> None:
+        if len(self.retained) < 64:
+            self.retained.append((m, (got, tuple(m.parts)), desc))
+
+    def check_retained(self, after: str) -> None:
+        for m, (got, parts), desc in self.retained:
+            now = ((m.path, core.tj(m.obj)), tuple(m.parts))
+            if now != (got, parts):
+                raise Violation(
+                    "C09.result",
+                    f"after {after}: a match returned earlier by [{desc}] now reads {core.short([m.path, list(m.parts), core.unwrap(m.obj)], 200)}; "
+                    f"when it was returned it read {core.short([got[0], list(parts), _untj(got[1])], 200)}",
+                    "C09.result:retained-match-changed",
                 )
 
     def bad_match(self, desc: str, k: int, got: Any, ref: _Ref) -> Violation:
@@ -634,6 +653,7 @@ def _advance(w: World, ctx: Ctx, cid: int, h: _Handle) -> bool:
     if h.pos >= len(h.ref.ms) or got != h.ref.ms[h.pos]:
         raise w.bad_match(h.desc, h.pos, got, h.ref)
     h.pos += 1
+    w.retain(m, got, h.desc)
     ctx.log.add("next", cid, h.pos)
     return True
 
